@@ -3,7 +3,6 @@ import MythVerif.Proofs.WsQueueTsoBnd
 namespace MythVerif.WsqTso
 open MythVerif.Wsq
 
-set_option maxHeartbeats 4000000 in
 theorem bO_pus (s s' : St) (e off) : Inv s → Inv s' → Bnd s → s.opc = .pus e off → stepO s = some s' → Bnd s' := by
   intro h h' hb hpc hs
   have hcfg := h.cfg
@@ -25,7 +24,6 @@ theorem bO_pus (s s' : St) (e off) : Inv s → Inv s' → Bnd s → s.opc = .pus
       (try simp only [hpc, upd_apply, applySto] at hold ⊢)
       first | assumption | (intros; contradiction) | grind [thiefLocked, mayBuf, notTrans, thiefFlight, popWin, rcOff_bnd, Rc1Shape, Rc2Shape, RcPre, RcShape, InsShape, Pu2Shape, CarryShape] | skip)))
 
-set_option maxHeartbeats 4000000 in
 theorem bO_puv (s s' : St) (e off) : Inv s → Inv s' → Bnd s → s.opc = .puv e off → stepO s = some s' → Bnd s' := by
   intro h h' hb hpc hs
   have hcfg := h.cfg
@@ -47,7 +45,6 @@ theorem bO_puv (s s' : St) (e off) : Inv s → Inv s' → Bnd s → s.opc = .puv
       (try simp only [hpc, upd_apply, applySto] at hold ⊢)
       first | assumption | (intros; contradiction) | grind [thiefLocked, mayBuf, notTrans, thiefFlight, popWin, rcOff_bnd, Rc1Shape, Rc2Shape, RcPre, RcShape, InsShape, Pu2Shape, CarryShape] | skip)))
 
-set_option maxHeartbeats 4000000 in
 theorem bO_pux (s s' : St) (e t) : Inv s → Inv s' → Bnd s → s.opc = .pux e t → stepO s = some s' → Bnd s' := by
   intro h h' hb hpc hs
   have hcfg := h.cfg
@@ -69,7 +66,6 @@ theorem bO_pux (s s' : St) (e t) : Inv s → Inv s' → Bnd s → s.opc = .pux e
       (try simp only [hpc, upd_apply, applySto] at hold ⊢)
       first | assumption | (intros; contradiction) | grind [thiefLocked, mayBuf, notTrans, thiefFlight, popWin, rcOff_bnd, Rc1Shape, Rc2Shape, RcPre, RcShape, InsShape, Pu2Shape, CarryShape] | skip)))
 
-set_option maxHeartbeats 4000000 in
 theorem bO_pu1 (s s' : St) (e t) : Inv s → Inv s' → Bnd s → s.opc = .pu1 e t → stepO s = some s' → Bnd s' := by
   intro h h' hb hpc hs
   have hcfg := h.cfg
@@ -91,7 +87,6 @@ theorem bO_pu1 (s s' : St) (e t) : Inv s → Inv s' → Bnd s → s.opc = .pu1 e
       (try simp only [hpc, upd_apply, applySto] at hold ⊢)
       first | assumption | (intros; contradiction) | grind [thiefLocked, mayBuf, notTrans, thiefFlight, popWin, rcOff_bnd, Rc1Shape, Rc2Shape, RcPre, RcShape, InsShape, Pu2Shape, CarryShape] | skip)))
 
-set_option maxHeartbeats 4000000 in
 theorem bO_pu2 (s s' : St) (e t) : Inv s → Inv s' → Bnd s → s.opc = .pu2 e t → stepO s = some s' → Bnd s' := by
   intro h h' hb hpc hs
   have hcfg := h.cfg
